@@ -1020,6 +1020,9 @@ class Fxp():
 
         # scaling reconversion
         if val is not None and self.scaled:
+            if isinstance(val, (np.ndarray, np.generic)) and val.dtype == np.uint64:
+                # unsigned codes of less than 64 bits: a negative integer scale or bias must not be cast to uint64
+                val = val.astype(np.int64)
             val = val * self.scale + self.bias
         return val
 
